@@ -524,6 +524,8 @@ class Quantity:
                         ret += " / "
                     else:
                         ret += "1 / "
+                else:
+                    ret += " * "
 
                 if exp != -1:
                     ret += f"({rep}) ** {abs(exp)}"
@@ -565,6 +567,8 @@ class Quantity:
                         ret += "/"
                     else:
                         ret += "1/"
+                else:
+                    ret += "."
 
                 ret += unit
                 if exp != -1:
